@@ -180,8 +180,8 @@ func modelRunBubble(tp *core.Tape, e *core.Env, cfg nodeCfg) (ops []opRec) {
 			req := map[string][]*target.Target{}
 			mode := tp.Weighted("update_mode", 6, 1, 1)
 			if mode == 2 && len(cur) > 0 { // repeat the current assignment
-				for h, t := range cur {
-					c := *t
+				for _, h := range sidecarsim.SortedHashes(cur) { // list order must not depend on map order
+					c := *cur[h]
 					req[curJob[h]] = append(req[curJob[h]], &c)
 				}
 			} else if mode != 1 { // mode 1 = empty
@@ -229,6 +229,92 @@ func modelRunBubble(tp *core.Tape, e *core.Env, cfg nodeCfg) (ops []opRec) {
 			sort.Strings(desc)
 			e.Logf("op %d update [%s]", i, strings.Join(desc, " "))
 			ops = append(ops, opRec{"update", desc})
+			if cfg.overlapW > 0 && tp.Bool("second_update_overlaps", 1, 8) {
+				// two updates are in flight in the sidecar at once (a slow reload, a retry of the
+				// coordinator): A is taken first, B second, their callbacks finish in a drawn order.
+				// B was taken last, so B is what the sidecar holds - and what a restart must resume.
+				reqB := map[string][]*target.Target{}
+				if !tp.Bool("overlap_b_empty", 1, 2) {
+					for _, job := range Jobs {
+						for _, t := range req[job] {
+							if tp.Bool("overlap_b_drops", 1, 3) {
+								continue
+							}
+							c := *t
+							if tp.Bool("overlap_b_flips", 1, 4) {
+								if c.TargetState == "" {
+									c.TargetState = "in_transfer"
+								} else {
+									c.TargetState = ""
+								}
+							}
+							reqB[job] = append(reqB[job], &c)
+						}
+					}
+				}
+				s := sched.Install()
+				var errA, errB error
+				doneA, doneB := make(chan struct{}), make(chan struct{})
+				tA := time.Now()
+				go func() { defer close(doneA); errA = n.SC.PostTargets(&shard.UpdateTargetsRequest{Targets: req}) }()
+				synctest.Wait()
+				tB := time.Now()
+				go func() { defer close(doneB); errB = n.SC.PostTargets(&shard.UpdateTargetsRequest{Targets: reqB}) }()
+				for step := 0; step < 200; step++ {
+					synctest.Wait()
+					pend := s.Pending()
+					if len(pend) == 0 {
+						break
+					}
+					s.Release(pend[tp.Choose("yield", len(pend))])
+				}
+				s.Uninstall()
+				<-doneA
+				<-doneB
+				if errA != nil || errB != nil {
+					e.Undecided("overlapping updates failed: %v / %v", errA, errB)
+					return
+				}
+				m.Update(req, tA)
+				m.Update(reqB, tB)
+				cur = map[uint64]*target.Target{}
+				curJob = map[uint64]string{}
+				for _, job := range Jobs {
+					for _, t := range reqB[job] {
+						cur[t.Hash] = t
+						curJob[t.Hash] = job
+					}
+				}
+				e.Probe("updates_overlapped")
+				kinds["update"] = true
+				ops = append(ops, opRec{"second update overlapping the first", len(reqB)})
+				e.Logf("op %d a second update (%d jobs) overlaps this one", i, len(reqB))
+				check("update")
+				if e.Failed() {
+					return
+				}
+				// and the store agrees with what the sidecar holds
+				restartAt := time.Now()
+				if err := n.Restart(NodeConfig, fileMode); err != nil {
+					e.Undecided("restart failed: %v", err)
+					return
+				}
+				m.Restart(restartAt)
+				cur = map[uint64]*target.Target{}
+				curJob = map[uint64]string{}
+				for h, p := range m.disk {
+					cur[h] = MkTarget(h, p.job, p.state, p.series, p.total)
+					curJob[h] = p.job
+				}
+				m.jobOf = map[uint64]string{}
+				for h, p := range m.disk {
+					m.jobOf[h] = p.job
+				}
+				e.Fault("sidecar_restart")
+				kinds["restart"] = true
+				check("restart")
+				continue
+			}
 			reloadFails := tp.Bool("prom_reload_fails", 1, 8)
 			if reloadFails {
 				n.SC.ReloadErr = fmt.Errorf("prometheus reload failed (injected)")
